@@ -355,6 +355,8 @@ class Sched:
                         t._starved = getattr(t, "_starved", 0) + 1
                         if t._starved > 3000:
                             t.prio = 1.0
+                if top.prio <= -1e8:
+                    top.prio = 1.0 + 1e-6 * top.tid     # the delay is over: it was its turn only because nobody else could run
                 weights = [1.0 if t is top else 1e-6 for t in en]
                 default = top.tid
             elif cur is not None and cur.state != DONE and cur in en:
@@ -697,6 +699,7 @@ class Kernel:
         self.fault_counts = collections.Counter()
         self.probes = collections.Counter()
         self.pipe_log = []
+        self.cut_tasks = []
 
     def digest(self):
         h = 0
@@ -823,6 +826,9 @@ class Kernel:
             of.decref()
         for t in proc.tasks:
             if t.state != DONE:
+                if not t.killed and (t.state == RUNNABLE or (t.state == BLOCKED and t.what in ("lock", "sem", "write", "read"))) \
+                        and t is not self.s.cur():
+                    self.cut_tasks.append((proc.pid, t.role, t.state, t.what))     # cut in the middle of something
                 t.killed = True
         for c in self.procs.values():
             if c.ppid == proc.pid:
